@@ -390,7 +390,8 @@ def judge(F, rec, tlc_verdict=None):
     if rec["raised"]:
         r = rec["raised"]
         if r.get("fresh_builds"):
-            F.add("replace-raises:%s@%s" % (r["exc"], r["where"]),
+            kept = ("|stale-in:" + "+".join(r["kept_by"])) if r.get("kept_by") else ""
+            F.add("replace-raises:%s@%s%s" % (r["exc"], r["where"], kept),
                   "%s: step %d raises %s (%s) although the target design builds from scratch"
                   % (h, r["step"], r["exc"], r["msg"].splitlines()[0] if r["msg"] else ""), rec, {"raised": r})
         else:
